@@ -972,7 +972,7 @@ class Inliner:
                     return False
         return True
 
-    def helper(self, q):
+    def helper(self, q, with_cm=False):
         e = self.index.get(q)
         if e is None or (q in self.known and not self._local_helper(q)):
             return None
@@ -981,6 +981,9 @@ class Inliner:
             return None
         decs = [ast.unparse(d) for d in fn.decorator_list]
         if any(d not in ("staticmethod", "classmethod") for d in decs):
+            if not (with_cm and all(d in ("staticmethod", "classmethod", "contextlib.contextmanager", "contextmanager") for d in decs)):
+                return None
+        elif with_cm:
             return None
         if fn.args.kwarg:
             return None
@@ -1147,8 +1150,102 @@ class Inliner:
             return None  # its nonlocal names are plain locals only in the function that defines it
         return q, recv, e
 
+    def _expand_with(self, s, fq, mn, cls, chain):
+        """with helper(args) [as v]: body   (helper a new @contextmanager generator with one yield)
+           ->  <before the yield>; v = <yielded>; body; <after the yield>     (try/finally around the yield kept)"""
+        if len(s.items) != 1 or not isinstance(s.items[0].context_expr, ast.Call):
+            return None
+        call = s.items[0].context_expr
+        q, recv = self.resolve(call, mn, cls, chain)
+        if q is None or q == fq:
+            return None
+        e = self.helper(q, with_cm=True)
+        if e is None:
+            return None
+        hfn = e[0]
+        ys = [n for n in _walk_same_function(hfn) if isinstance(n, (ast.Yield, ast.YieldFrom))]
+        if not ys or any(not isinstance(y_, ast.Yield) for y_ in ys) or any(r.value is not None for r in _returns_in(hfn)):
+            return None
+        as_v = s.items[0].optional_vars
+        if as_v is not None and not isinstance(as_v, ast.Name):
+            return None
+        body, exprmap, pre, ok = self._bind(call, hfn, recv, q)
+        if not ok:
+            return None
+        escapes = any(isinstance(n, (ast.Return, ast.Break, ast.Continue)) for b in s.body for n in _walk_loop_body(b)) or any(isinstance(n, ast.Return) for b in s.body for n in _walk_same_function(b))
+        if len(ys) > 1 or _has_return(hfn):
+            # several yields, one on every path (`if not c: yield; return` in front of the general case)
+            body = nest_early_exits(body)
+            if not _tail_returns_only(body) or escapes:
+                return None
+            body = _replace_returns(body, lambda v, at: [])
+
+            def counts(stmts):
+                tot = {0}
+                for st in stmts:
+                    if isinstance(st, ast.Expr) and isinstance(st.value, ast.Yield):
+                        c = {1}
+                    elif isinstance(st, ast.If):
+                        a, b = counts(st.body), counts(st.orelse)
+                        c = None if a is None or b is None else a | b
+                    elif any(isinstance(n, (ast.Yield, ast.YieldFrom)) for n in _walk_same_function(st)):
+                        c = None
+                    else:
+                        c = {0}
+                    if c is None:
+                        return None
+                    tot = {x + y_ for x in tot for y_ in c}
+                return tot
+            if counts(body) != {1}:
+                return None
+
+            def put(stmts):
+                out = []
+                for st in stmts:
+                    if isinstance(st, ast.Expr) and isinstance(st.value, ast.Yield):
+                        if as_v is not None:
+                            v = st.value.value if st.value.value is not None else ast.Constant(value=None)
+                            out.append(ast.fix_missing_locations(ast.copy_location(ast.Assign(targets=[ast.Name(id=as_v.id, ctx=ast.Store())], value=v), s)))
+                        out.extend(copy.deepcopy(s.body))
+                    else:
+                        if isinstance(st, ast.If):
+                            st.body = put(st.body) or [ast.copy_location(ast.Pass(), st)]
+                            st.orelse = put(st.orelse)
+                        out.append(st)
+                return out
+            self._note(q, fq)
+            return pre + put(body)
+        y = next(n for b in body for n in _walk_same_function(b) if isinstance(n, ast.Yield))
+
+        def is_yield_stmt(st):
+            return isinstance(st, ast.Expr) and st.value is y
+
+        def bound():
+            if as_v is None:
+                return []
+            v = y.value if y.value is not None else ast.Constant(value=None)
+            return [ast.fix_missing_locations(ast.copy_location(ast.Assign(targets=[ast.Name(id=as_v.id, ctx=ast.Store())], value=v), s))]
+        for i, st in enumerate(body):
+            if is_yield_stmt(st):
+                if escapes:
+                    return None  # leaving the block by return/break would still run what follows the yield
+                self._note(q, fq)
+                return pre + body[:i] + bound() + list(s.body) + body[i + 1:]
+            if isinstance(st, ast.Try) and not st.handlers and not st.orelse and st.finalbody and any(is_yield_stmt(x) for x in st.body):
+                k = next(j for j, x in enumerate(st.body) if is_yield_stmt(x))
+                if st.body[k + 1:] and escapes:
+                    return None
+                st.body = st.body[:k] + bound() + list(s.body) + st.body[k + 1:]
+                self._note(q, fq)
+                return pre + body
+        return None
+
     def _expand_stmt(self, s, fq, mn, cls, chain):
         """list of statements replacing s, or None"""
+        if isinstance(s, ast.With):
+            rep = self._expand_with(s, fq, mn, cls, chain)
+            if rep is not None:
+                return rep
         # (a) statement-level call
         if isinstance(s, ast.Expr) and isinstance(s.value, ast.Call):
             site = self._site(s.value, fq, mn, cls, chain)
